@@ -114,7 +114,12 @@ def mutants(only=None, catalogue=None):
             if m['file'].startswith('tools/') or 'C20' in m.get('breaks', []) + m.get('quiet', []):
                 shutil.copytree(os.path.join(B.REPO, 'tools'), os.path.join(scratch, 'tools'),
                                 ignore=shutil.ignore_patterns('__pycache__', 'archive', 'compare_*', 'validation'))
-            _apply(scratch, m)
+            try:
+                _apply(scratch, m)
+            except K.HarnessError as e:
+                print('%-28s -- PATTERN-STALE %s' % (m['name'], e))
+                bad += 1
+                continue
             out = os.path.join(scratch, 'out')
             os.makedirs(out)
             for prop in m.get('breaks', []):
